@@ -333,6 +333,7 @@ Theorem resume_restores : forall en s c cs,
   e_key en = KAes /\
   n_cmd (cs_neg cs) = c /\ n_sid (cs_neg cs) = s /\
   n_authn (cs_neg cs) = e_authn en /\ n_user (cs_neg cs) = e_user en /\
+  n_valid (cs_neg cs) = e_valid en /\
   cs_auth_real cs = e_auth_real en /\
   n_enc (cs_neg cs) = true /\ cs_enc_real cs = true /\ n_resumed (cs_neg cs) = true.
 Proof.
